@@ -785,6 +785,13 @@ func (in *Interp) doSelect(fr *frame, instr *ssa.Select) Value {
 		}
 	}
 	readyIdx := func() int {
+		// a value already handed over on an unbuffered channel is a committed rendezvous: the sender
+		// has gone on, so this receive must be the case that is taken
+		for i, s := range states {
+			if s.ch != nil && s.dir == types.RecvOnly && s.ch.Cap == 0 && len(s.ch.Buf) > 0 {
+				return i
+			}
+		}
 		for i, s := range states {
 			if s.ch == nil {
 				continue
